@@ -23,7 +23,8 @@ Subset
   mutation   : argument arrays the body stores into (`x[i] = ..`, `x[i] += ..`) are part of the result: a function that
                returns the value v returns (v, x, ..) (the final contents of the mutated arguments, in parameter order);
                a function that returns the tuple `a, b` returns the flat tuple (a, b, x, ..)
-  types      : F float scalar, I int, B bool, V float vector, M float matrix, VZ int vector, tuples (for returns).
+  types      : F float scalar, I int, B bool, V float vector, M float matrix, VZ int vector, MZ int matrix, U (the value
+               `None`, Coq `tt : unit`; it can only be bound to a name and returned), tuples (for returns).
                Argument types come from `sigs`; everything else is inferred; int -> float coercions are explicit
                (`of_Z`), bool -> number is `b2n`.
 
@@ -45,6 +46,29 @@ Subset
                in the order of that dict: `src_sparse_sum N (arr_union : list Z -> list Z -> list Z) ind1 ...`.  Meaning:
                helper is a pure function returning a FRESH array (no aliasing with its arguments: python's
                `arr_union` returning `ar2` itself is not modelled; only the returned value is).
+Extensions for the kNN kernels of umap_.py (C01)
+  2-d arrays : `a[i, j]` on M (`mnth`) and MZ (`imnth`), `a[i]` = row (`mrow` / `imrow`), `a.shape[1]` = length of row 0,
+               `a.size` = shape[0] * shape[1] (`msize`; a 2-d array is a rectangular list of rows), `a.ravel()` on M =
+               concatenation of the rows (`mravel`); stores at computed flat indices `rows[i * n + j] = v` are ordinary
+               1-d stores (`iset` / `vset`)
+  masks      : `a[a < c]`, `a[a > c]`, ... with `a` a NAME of type V on both sides and `c` a scalar: `vfilter N (fun a_ => ..) a`
+               (numba/numpy boolean-mask indexing: the selected entries in order); nothing else may be indexed by a mask
+  calls      : np.floor (`nfloor`, derived from the truncation `ntrunc`), np.log2 (`nlog2` = ln x / ln 2), np.max of a
+               V (`vmax_py`: left fold of `nmax` from the first element; 0 on an empty array, where numpy raises),
+               np.fabs = np.abs
+  bool       : `x == False` / `x == True` on bools is `Bool.eqb`; `&`, `|`, `^` on bools are `andb`, `orb`, `xorb` (strict: both
+               operands are pure expressions here, so strictness is unobservable)
+  None       : `name = None` binds `tt`; a function whose result tuple contains such a name returns `unit` in that place
+  fixed args : `sigs[fn]['fixed'] = {'return_dists': False, ...}`: the function is translated FOR THESE VALUES of the listed
+               boolean arguments: the argument disappears from the generated definition, every read of it becomes the
+               constant, and `if <constant>:` statements keep only the live branch (the dead branch is not translated
+               and may be outside the subset).  A fixed argument that is assigned anywhere is rejected.  The link theorem
+               is then a statement about calls with these argument values only.
+  infinity   : `Num` has no infinity.  A module constant bound to `np.inf` (see module_consts) is translated as the extra
+               argument `pinf : N` of every generated function that (transitively) reads it, placed right after `N`
+               (and `E`; before opaque helpers).  The generated definition therefore describes the source on inputs where every float that
+               is compared with the constant is a real number below `pinf`, for any sufficiently large real `pinf`
+               (the link theorems say how large); the behaviour on tables containing +inf is NOT covered by it.
 """
 import ast, decimal, hashlib
 
@@ -53,8 +77,10 @@ class Unsupported(Exception):
     pass
 
 
-F, I, B, V, M, VZ = "F", "I", "B", "V", "M", "VZ"
-COQTY = {F: "N", I: "Z", B: "bool", V: "list N", M: "list (list N)", VZ: "list Z"}
+F, I, B, V, M, VZ, MZ, U = "F", "I", "B", "V", "M", "VZ", "MZ", "U"
+COQTY = {F: "N", I: "Z", B: "bool", V: "list N", M: "list (list N)", VZ: "list Z", MZ: "list (list Z)", U: "unit"}
+ARRAYS = (V, M, VZ, MZ)
+PINF = ("pinf", F)      # consts value of a module constant bound to +infinity: becomes the extra argument `pinf`
 
 
 def coq_type(t):
@@ -94,6 +120,8 @@ CALLS = {
     "np.exp": ([F], F, "(nexp N {0})"),
     "np.log": ([F], F, "(nln N {0})"),
     "np.sign": ([F], F, "(nsign N {0})"),
+    "np.floor": ([F], F, "(nfloor N {0})"),
+    "np.log2": ([F], F, "(nlog2 N {0})"),
     "np.sin": ([F], F, "(psin N E {0})"),
     "np.cos": ([F], F, "(pcos N E {0})"),
     "np.arcsin": ([F], F, "(pasin N E {0})"),
@@ -186,6 +214,7 @@ class FnTranslator:
         self.has_raise = contains(fn.body, ast.Raise)
         self.fresh = 0
         self.calls = set()
+        self.uses_pinf = False
         self.opaque = dict(sig.get("opaque") or {})     # helper name -> ([arg types], result type)
         self.opaque_used = set()
         self.pre = []          # hoisted fuel-bounded calls of the statement being translated: [(let-text, ok flag)]
@@ -250,12 +279,14 @@ class FnTranslator:
                 return zlit(v), I
             if isinstance(v, float):
                 return flit(v), F
+            if v is None:
+                return "tt", U
             raise Unsupported("constant %r" % (v,))
         if isinstance(n, ast.Name):
             if n.id in env:
                 return self.var(n.id), env[n.id]
             if n.id in self.consts:
-                return self.consts[n.id]
+                return self.const(n.id)
             raise Unsupported("unknown name " + n.id)
         if isinstance(n, ast.Attribute):
             d = dotted(n)
@@ -265,7 +296,13 @@ class FnTranslator:
             if d in ("np.inf", "np.infty"):
                 raise Unsupported("np.inf")
             if d in self.consts:
-                return self.consts[d]
+                return self.const(d)
+            if n.attr == "size":
+                arr, t = self.expr(n.value, env)
+                if t in (M, MZ):
+                    return "(msize %s)" % arr, I
+                if t in (V, VZ):
+                    return "(zlen %s)" % arr, I
             raise Unsupported("attribute " + str(d))
         if isinstance(n, ast.UnaryOp):
             e, t = self.expr(n.operand, env)
@@ -329,6 +366,12 @@ class FnTranslator:
             return "(" + ", ".join(p[0] for p in parts) + ")", tuple(p[1] for p in parts)
         raise Unsupported("expression " + type(n).__name__)
 
+    def const(self, name):
+        c = self.consts[name]
+        if c == PINF:
+            self.uses_pinf = True
+        return c
+
     def join(self, a, b):
         if a == b:
             return a
@@ -340,8 +383,8 @@ class FnTranslator:
         a, ta = self.expr(l, env)
         b, tb = self.expr(r, env)
         if ta == B and tb == B and isinstance(op, (ast.Eq, ast.NotEq)):
-            return "(eqb %s %s)" % (a, b) if isinstance(op, ast.Eq) else "(xorb %s %s)" % (a, b)
-        if ta in (V, M, VZ) or tb in (V, M, VZ):
+            return "(Bool.eqb %s %s)" % (a, b) if isinstance(op, ast.Eq) else "(xorb %s %s)" % (a, b)
+        if ta in ARRAYS or tb in ARRAYS:
             raise Unsupported("array comparison")
         t = self.join(ta, tb)
         a, b = self.coerce(a, ta, t), self.coerce(b, tb, t)
@@ -372,7 +415,7 @@ class FnTranslator:
             if ta == V:
                 return "(vmaps_r N %s %s %s)" % (f, a, self.coerce(b, tb, F)), V
             return "(vmaps_l N %s %s %s)" % (f, self.coerce(a, ta, F), b), V
-        if ta in (M, VZ) or tb in (M, VZ):
+        if ta in (M, VZ, MZ) or tb in (M, VZ, MZ):
             raise Unsupported("matrix / int-array arithmetic")
         if isinstance(n.op, ast.Div):
             return "(div N %s %s)" % (self.coerce(a, ta, F), self.coerce(b, tb, F)), F
@@ -413,10 +456,12 @@ class FnTranslator:
         # a.shape[0]
         if isinstance(n.value, ast.Attribute) and n.value.attr == "shape":
             arr, t = self.expr(n.value.value, env)
-            if isinstance(n.slice, ast.Constant) and n.slice.value == 0 and t in (V, M, VZ):
+            if isinstance(n.slice, ast.Constant) and n.slice.value == 0 and t in ARRAYS:
                 return "(zlen %s)" % arr, I
             if isinstance(n.slice, ast.Constant) and n.slice.value == 1 and t == M:
                 return "(zlen (mrow N %s 0))" % arr, I
+            if isinstance(n.slice, ast.Constant) and n.slice.value == 1 and t == MZ:
+                return "(zlen (imrow %s 0))" % arr, I
             raise Unsupported("shape index")
         arr, t = self.expr(n.value, env)
         sl = n.slice
@@ -436,9 +481,13 @@ class FnTranslator:
             if self.nest:
                 raise Unsupported("slice inside a loop / joining if")
             return "(zslice_to %s %s)" % (arr, self.index(sl.upper, env)), t
+        if isinstance(sl, ast.Compare):
+            return self.mask(n, arr, t, env)
         if isinstance(sl, ast.Tuple):
-            if t != M or len(sl.elts) != 2:
+            if t not in (M, MZ) or len(sl.elts) != 2:
                 raise Unsupported("tuple index")
+            if t == MZ:
+                return "(imnth %s %s %s)" % (arr, self.index(sl.elts[0], env), self.index(sl.elts[1], env)), I
             return "(mnth N %s %s %s)" % (arr, self.index(sl.elts[0], env), self.index(sl.elts[1], env)), F
         i = self.index(sl, env)
         if t == V:
@@ -447,7 +496,34 @@ class FnTranslator:
             return "(inth %s %s)" % (arr, i), I
         if t == M:
             return "(mrow N %s %s)" % (arr, i), V
+        if t == MZ:
+            return "(imrow %s %s)" % (arr, i), VZ
         raise Unsupported("subscript of " + str(t))
+
+    def mask(self, n, arr, t, env):
+        """boolean-mask indexing a[a OP c] / a[c OP a]: `a` the same NAME (type V) inside and outside, c a scalar"""
+        sl = n.slice
+        if t != V or not isinstance(n.value, ast.Name) or len(sl.ops) != 1:
+            raise Unsupported("mask index")
+        l, r = sl.left, sl.comparators[0]
+
+        def same(x):
+            return isinstance(x, ast.Name) and x.id == n.value.id
+        if same(l) == same(r):
+            raise Unsupported("mask index: exactly one side of the comparison must be the indexed array")
+        other = r if same(l) else l
+        if n.value.id in used_names([other]):
+            raise Unsupported("mask index: the scalar side reads the array")
+        c, tc = self.expr(other, env)
+        if tc not in (F, I, B):
+            raise Unsupported("mask index: non-scalar comparand")
+        c = self.coerce(c, tc, F)
+        a, b = ("a_", c) if same(l) else (c, "a_")
+        tpl = {ast.Lt: "(ltb N {0} {1})", ast.LtE: "(leb N {0} {1})", ast.Gt: "(ngt N {0} {1})", ast.GtE: "(nge N {0} {1})",
+               ast.Eq: "(eqb N {0} {1})", ast.NotEq: "(nne N {0} {1})"}
+        if type(sl.ops[0]) not in tpl:
+            raise Unsupported("mask comparison operator")
+        return "(vfilter N (fun a_ => %s) %s)" % (tpl[type(sl.ops[0])].format(a, b), arr), V
 
     def vec_mask(self, n, env):
         """vector comparison `v > c` (one operator, vector against scalar or vector) -> (coq list bool, 'VB')"""
@@ -482,6 +558,20 @@ class FnTranslator:
             raise Unsupported("call of non-name")
         name = name or "<method>"
         kw = {k.arg: k.value for k in n.keywords}
+        if isinstance(n.func, ast.Attribute) and n.func.attr == "ravel" and isinstance(n.func.value, ast.Name) and n.func.value.id in env:
+            if n.args or kw:
+                raise Unsupported("ravel with arguments")
+            arr, t = self.expr(n.func.value, env)
+            if t == M:
+                return "(mravel N %s)" % arr, V
+            if t == V:
+                return arr, V
+            raise Unsupported("ravel of " + str(t))
+        if name == "np.max" and len(n.args) == 1 and not kw:
+            a, ta = self.expr(n.args[0], env)
+            if ta != V:
+                raise Unsupported("np.max of non-vector")
+            return "(vmax_py N %s)" % a, F
         if name in ("np.zeros", "np.empty", "np.zeros_like", "np.empty_like"):
             if name.endswith("_like"):
                 arr, t = self.expr(n.args[0], env)
@@ -618,7 +708,9 @@ class FnTranslator:
             self.calls.add(name)
             if info["ext"]:
                 self.uses_ext = True
-            head = "src_%s N%s" % (name, " E" if info["ext"] else "")
+            if info.get("pinf"):
+                self.uses_pinf = True
+            head = "src_%s N%s%s" % (name, " E" if info["ext"] else "", " pinf" if info.get("pinf") else "")
             for h, hsig in info.get("opaque", []):
                 if self.opaque.get(h) != hsig:
                     raise Unsupported("call of %s needs the opaque helper %s, not declared (with the same type) for this function" % (name, h))
@@ -998,8 +1090,12 @@ class FnTranslator:
             init = self.tup(state)
         if not st_names:
             return pre + self.block(rest, env, k)  # a loop without effect on named state
-        txt = pre + "let %s := for_range %s %s (fun %s %s =>\n%s) %s in\n" % (
-            self.pat(st_names), lo, hi, self.var(iv), self.pat(st_names), body, init)
+        # with a `live` flag the body starts with `if live`: give the state type explicitly (elaboration order)
+        head = "for_range"
+        if has_break:
+            head = "@for_range %s" % coq_type(tuple([B] + [env[n] for n in state])) if state else "@for_range bool"
+        txt = pre + "let %s := %s %s %s (fun %s %s =>\n%s) %s in\n" % (
+            self.pat(st_names), head, lo, hi, self.var(iv), self.pat(st_names), body, init)
         return txt + self.block(rest, env, k)
 
     def nested(self, thunk):
@@ -1085,7 +1181,58 @@ class FnTranslator:
         return txt + self.block(rest, self.add_ok(env, ok), k)
 
     # ---------------------------------------------------------------- function
+    def specialise(self, fn, fixed):
+        """copy of fn with the boolean arguments `fixed` (name -> bool) replaced by constants and `if <constant>` pruned"""
+        import copy
+        fn = copy.deepcopy(fn)
+        names = {a.arg for a in fn.args.args}
+        for nm, val in fixed.items():
+            if nm not in names or not isinstance(val, bool):
+                raise Unsupported("fixed argument %s is not a boolean argument of the function" % nm)
+        for x in ast.walk(fn):
+            if isinstance(x, ast.Name) and x.id in fixed and not isinstance(x.ctx, ast.Load):
+                raise Unsupported("fixed argument %s is assigned" % x.id)
+
+        class Sub(ast.NodeTransformer):
+            def visit_Name(self, node):
+                if node.id in fixed:
+                    return ast.copy_location(ast.Constant(value=fixed[node.id]), node)
+                return node
+        fn.body = [Sub().visit(st) for st in fn.body]
+
+        def const_test(t):
+            if isinstance(t, ast.Constant) and isinstance(t.value, bool):
+                return t.value
+            if isinstance(t, ast.UnaryOp) and isinstance(t.op, ast.Not):
+                v = const_test(t.operand)
+                return None if v is None else (not v)
+            return None
+
+        def prune(stmts):
+            out = []
+            for st in stmts:
+                if isinstance(st, ast.If):
+                    v = const_test(st.test)
+                    if v is True:
+                        out += prune(st.body)
+                        continue
+                    if v is False:
+                        out += prune(st.orelse)
+                        continue
+                    st.body, st.orelse = prune(st.body) or [ast.Pass()], prune(st.orelse)
+                elif isinstance(st, (ast.For, ast.While)):
+                    st.body = prune(st.body) or [ast.Pass()]
+                out.append(st)
+            return out
+        fn.body = prune(fn.body)
+        fn.args.args = [a for a in fn.args.args if a.arg not in fixed]
+        return fn
+
     def translate(self):
+        fixed = self.sig.get("fixed") or {}
+        if fixed:
+            self.fn = self.specialise(self.fn, fixed)
+            self.has_raise = contains(self.fn.body, ast.Raise)
         fn = self.fn
         a = fn.args
         if a.vararg or a.kwarg or a.kwonlyargs or a.posonlyargs:
@@ -1136,12 +1283,14 @@ class FnTranslator:
         rt = ("opt", self.ret_type) if self.has_raise else self.ret_type
         full = (rt, B) if self.has_fuel else rt
         opq = [(h, self.opaque[h]) for h in self.opaque if h in self.opaque_used]
-        head = "Definition src_%s (N : Num)%s%s %s : %s :=\n" % (
-            fn.name, " (E : PyExt N)" if self.uses_ext else "",
+        if self.uses_pinf and (any(n == "pinf" for n, _ in params) or any(h == "pinf" for h, _ in opq)):
+            raise Unsupported("an argument is called pinf")
+        head = "Definition src_%s (N : Num)%s%s%s %s : %s :=\n" % (
+            fn.name, " (E : PyExt N)" if self.uses_ext else "", " (pinf : N)" if self.uses_pinf else "",
             "".join(" (%s : %s)" % (self.var(h), " -> ".join(coq_type(t) for t in tys + [r])) for h, (tys, r) in opq),
             " ".join("(%s : %s)" % (self.var(n), coq_type(t)) for n, t in params), coq_type(full))
         return head + body + ".\n", {"args": params, "ret": rt, "ext": self.uses_ext, "mutates": self.mutated,
-                                      "fuel": self.has_fuel, "opaque": opq}
+                                      "fuel": self.has_fuel, "opaque": opq, "pinf": self.uses_pinf, "fixed": dict(fixed)}
 
 
 COQ_RESERVED = {"at", "as", "in", "fun", "let", "match", "end", "with", "then", "else", "if", "return", "forall", "exists", "fix", "cofix",
@@ -1156,6 +1305,38 @@ def module_functions(path):
     return {n.name: n for n in tree.body if isinstance(n, ast.FunctionDef)}, tree
 
 
+def module_consts(path, names):
+    """top-level `NAME = <literal>` assignments of the module -> consts dict for translate_module:
+    float / int literals (also with a unary minus) become `nlit` / Z literals; a name bound to np.inf, np.infty, math.inf,
+    float('inf') or float("inf") becomes PINF (the extra argument `pinf`, see the header).  Names that are missing,
+    bound twice, or bound to anything else are left out (a function reading them is then rejected)."""
+    tree = ast.parse(open(path).read())
+    found = {}
+    for node in tree.body:
+        if isinstance(node, ast.Assign) and len(node.targets) == 1 and isinstance(node.targets[0], ast.Name) and node.targets[0].id in names:
+            found.setdefault(node.targets[0].id, []).append(node.value)
+    out = {}
+    for nm, vals in found.items():
+        if len(vals) != 1:
+            continue
+        v = vals[0]
+        neg = False
+        if isinstance(v, ast.UnaryOp) and isinstance(v.op, ast.USub):
+            neg, v = True, v.operand
+        if isinstance(v, ast.Constant) and isinstance(v.value, float):
+            try:
+                out[nm] = (flit(-v.value if neg else v.value), F)
+            except Unsupported:
+                pass
+        elif isinstance(v, ast.Constant) and isinstance(v.value, int) and not isinstance(v.value, bool):
+            out[nm] = (zlit(-v.value if neg else v.value), I)
+        elif not neg and (dotted(v) in ("np.inf", "np.infty", "numpy.inf", "math.inf") or
+                          (isinstance(v, ast.Call) and dotted(v.func) == "float" and len(v.args) == 1 and not v.keywords and
+                           isinstance(v.args[0], ast.Constant) and v.args[0].value in ("inf", "+inf", "Infinity"))):
+            out[nm] = PINF
+    return out
+
+
 def decorator_flags(fn):
     """numba decorator keyword flags as a canonical string (e.g. 'njit(fastmath=True)')"""
     out = []
@@ -1164,11 +1345,25 @@ def decorator_flags(fn):
     return out
 
 
-def translate_module(path, wanted, sigs=None, consts=None, modname="Src"):
-    """-> (coq text, report dict name -> {'ok', 'error', 'sha', 'decorators'})"""
+def translate_module(path, wanted, sigs=None, consts=None, modname="Src", const_names=None):
+    """-> (coq text, report dict name -> {'ok', 'error', 'sha', 'decorators'})
+    `const_names`: module-level constants read from the source with module_consts; each literal one becomes a generated
+    definition `src_const_<NAME>` (so that link theorems can be stated for whatever value the current source has) and
+    every read of it in a function is that definition; a constant bound to +infinity becomes the argument `pinf`."""
     sigs = sigs or {}
     fns, _ = module_functions(path)
     done, report, chunks = {}, {}, []
+    consts = dict(consts or {})
+    if const_names:
+        for nm, (txt, ty) in sorted(module_consts(path, set(const_names)).items()):
+            if (txt, ty) == PINF:
+                consts[nm] = PINF
+            elif ty == F:
+                chunks.append("Definition src_const_%s (N : Num) : N := %s.\n" % (nm, txt))
+                consts[nm] = ("(src_const_%s N)" % nm, F)
+            else:
+                chunks.append("Definition src_const_%s : Z := %s.\n" % (nm, txt))
+                consts[nm] = ("src_const_%s" % nm, I)
     for name in wanted:
         if name not in fns:
             report[name] = {"ok": False, "error": "function not found in " + path}
@@ -1188,8 +1383,10 @@ def translate_module(path, wanted, sigs=None, consts=None, modname="Src"):
         report[name] = {"ok": True, "sha": hashlib.sha256(text.encode()).hexdigest()[:12], "decorators": decorator_flags(fn),
                         "lines": (fn.lineno, fn.end_lineno), "ext": info["ext"], "ret": str(info["ret"]),
                         "args": [(n, str(t)) for n, t in info["args"]], "fuel_flags": getattr(tr, "fuel_flags", []),
-                        "fuel_bounded": info["fuel"], "opaque": [h for h, _ in info["opaque"]]}
-        chunks.append("(* %s:%d-%d  %s *)\n%s" % (path.split("/")[-1], fn.lineno, fn.end_lineno, " ".join(decorator_flags(fn)), text))
+                        "fuel_bounded": info["fuel"], "opaque": [h for h, _ in info["opaque"]],
+                        "pinf": info["pinf"], "fixed": info["fixed"]}
+        spec = ("  specialised to " + ", ".join("%s=%s" % kv for kv in sorted(info["fixed"].items()))) if info["fixed"] else ""
+        chunks.append("(* %s:%d-%d  %s%s *)\n%s" % (path.split("/")[-1], fn.lineno, fn.end_lineno, " ".join(decorator_flags(fn)), spec, text))
     header = ("(* GENERATED by harness/vp/py2coq.py from %s -- do not edit *)\n"
               "From Coq Require Import List ZArith Bool.\nFrom UV Require Import Num PyPrim.\nImport ListNotations.\n\n" % path)
     return header + "\n".join(chunks), report
